@@ -11,6 +11,11 @@
 // same live content (every key read from every replica's Store); (3) the
 // writable set of the layout equals that of a control Topology that received the
 // same registrations and no vacuum.
+// Overlap scenarios (round 4): while one round is held inside a phase (the replicas
+// have acted, their replies are delayed), 1-3 further Topology.Vacuum calls arrive
+// one after the other (the periodic timer, /vol/vacuum, the VacuumVolume gRPC); the
+// held round is then let go. Same oracles, plus: a commit RPC must find the
+// compaction result (.cpd) of its replica still in place.
 package main
 
 import (
@@ -18,6 +23,7 @@ import (
 	"encoding/hex"
 	"fmt"
 	"os"
+	"path/filepath"
 	"sort"
 	"strings"
 	"sync"
@@ -66,6 +72,10 @@ type scenario struct {
 	Rounds    int         `json:"rounds"`  // 1, or 2 (second round: every replica answers from its real state)
 	Variant   string      `json:"variant"` // "", "oversized", "under-replicated"
 	Hang      bool        `json:"has_hang"`
+	// overlap scenarios: the phase in which the first Vacuum call is held ("check", "compact",
+	// "commit"; "" = none) and the number of further Vacuum calls that arrive meanwhile
+	Overlap string `json:"overlap_held_in,omitempty"`
+	Extra   int    `json:"overlapping_vacuum_calls,omitempty"`
 }
 
 func (s scenario) key() string {
@@ -73,7 +83,11 @@ func (s scenario) key() string {
 	for _, r := range s.Reps {
 		p = append(p, r.Check+"/"+r.Compact+"/"+r.Commit)
 	}
-	return fmt.Sprintf("n%d[%s]mw=%v,r=%d,%s", s.N, strings.Join(p, " "), s.MidWrites, s.Rounds, s.Variant)
+	k := fmt.Sprintf("n%d[%s]mw=%v,r=%d,%s", s.N, strings.Join(p, " "), s.MidWrites, s.Rounds, s.Variant)
+	if s.Overlap != "" {
+		k += fmt.Sprintf(",overlap=%s+%d", s.Overlap, s.Extra)
+	}
+	return k
 }
 
 type rpcRec struct {
@@ -101,6 +115,12 @@ func (rp *replica) add(round int, op string, vid uint32, outcome string) {
 	rp.mu.Unlock()
 }
 
+func (rp *replica) logCopy() []rpcRec {
+	rp.mu.Lock()
+	defer rp.mu.Unlock()
+	return append([]rpcRec{}, rp.log...)
+}
+
 type world struct {
 	r       *lib.Run
 	sc      scenario
@@ -113,6 +133,49 @@ type world struct {
 	mu      sync.Mutex
 	// writable-set difference (per volume) left by the previous round
 	prevDiff map[uint32]string
+	og       *overlapGate
+}
+
+// overlapGate holds the first Vacuum call of an overlap scenario inside one phase: the
+// first RPC of that phase on every replica (commit: the first commit RPC of the scenario,
+// the master commits one replica after the other) acts, then waits for open before it
+// replies. RPCs of later Vacuum calls are never held.
+type overlapGate struct {
+	op      string
+	mu      sync.Mutex
+	seen    map[int]bool
+	arrived chan struct{}
+	open    chan struct{}
+}
+
+func (w *world) hold(rp *replica, op string, vid uint32) {
+	g := w.og
+	if g == nil || g.op != op || vid != vidMain {
+		return
+	}
+	g.mu.Lock()
+	if g.seen[rp.idx] || (op == "commit" && len(g.seen) > 0) {
+		g.mu.Unlock()
+		return
+	}
+	g.seen[rp.idx] = true
+	g.mu.Unlock()
+	w.r.Count("overlap.rpcs_held."+op, 1)
+	g.arrived <- struct{}{}
+	select {
+	case <-g.open:
+	case <-w.release:
+	}
+}
+
+func (w *world) rpcCount() int {
+	n := 0
+	for _, rp := range w.reps {
+		rp.mu.Lock()
+		n += len(rp.log)
+		rp.mu.Unlock()
+	}
+	return n
 }
 
 func payload(key uint64, gen int) []byte {
@@ -206,6 +269,7 @@ func (w *world) install(rp *replica) {
 			}
 			ratio, err := rp.store.CheckCompactVolume(needle.VolumeId(req.VolumeId))
 			rp.add(round, "check", req.VolumeId, fmt.Sprintf("ok(%.2f)", ratio))
+			w.hold(rp, "check", req.VolumeId)
 			return ratio, err
 		}
 		s.OnCompact = func(req *volume_server_pb.VacuumVolumeCompactRequest) error {
@@ -233,6 +297,7 @@ func (w *world) install(rp *replica) {
 			rp.compactOK[round] = true
 			rp.mu.Unlock()
 			rp.add(round, "compact", req.VolumeId, "ok")
+			w.hold(rp, "compact", req.VolumeId)
 			return nil
 		}
 		s.OnCommit = func(req *volume_server_pb.VacuumVolumeCommitRequest) (bool, error) {
@@ -245,7 +310,23 @@ func (w *world) install(rp *replica) {
 				rp.add(round, "commit", req.VolumeId, "err")
 				return false, fmt.Errorf("injected commit failure")
 			}
+			if w.og != nil {
+				// overlap scenarios: the commit must find this replica's compaction result in place
+				// (it is gone when another round's commit consumed it or a cleanup removed it)
+				w.r.Eval(1)
+				w.r.Count("overlap.commit_rpcs_checked_for_compaction_result", 1)
+				if _, serr := os.Stat(filepath.Join(rp.dir, fmt.Sprintf("%d.cpd", req.VolumeId))); serr != nil {
+					rp.add(round, "commit", req.VolumeId, "no-compaction-result")
+					w.r.Violation(lib.Sig{"class": "commit-without-compaction-result", "overlap_held_in": w.sc.Overlap, "replicas": fmt.Sprint(w.sc.N)},
+						map[string]interface{}{"msg": fmt.Sprintf("commit RPC reached replica %d which holds no compaction result (.cpd): %v", rp.idx, serr), "scenario": w.sc, "rpc_log": rp.logCopy()})
+					// not handed to the Store: CommitCompact without a .cpd wrecks the volume
+					return false, fmt.Errorf("volume %d has no compaction result to commit", req.VolumeId)
+				}
+			}
 			ro, err := rp.store.CommitCompactVolume(needle.VolumeId(req.VolumeId))
+			if err == nil {
+				w.hold(rp, "commit", req.VolumeId)
+			}
 			if err == nil && oc == "err-after" {
 				rp.add(round, "commit", req.VolumeId, "err-after")
 				return false, fmt.Errorf("injected: commit done, reply lost")
@@ -303,6 +384,9 @@ func runScenario(r *lib.Run, sc scenario, stubs []*lib.M13VolumeStub) {
 	}
 	w := &world{r: r, sc: sc, release: make(chan struct{}), midOnce: map[int]*sync.Once{1: new(sync.Once), 2: new(sync.Once)},
 		model: make(map[uint64][]byte), nextKey: 1000, round: 1}
+	if sc.Overlap != "" {
+		w.og = &overlapGate{op: sc.Overlap, seen: make(map[int]bool), arrived: make(chan struct{}, 8), open: make(chan struct{})}
+	}
 	placement := []string{"000", "001", "002"}[sc.N-1]
 	if sc.Variant == "under-replicated" {
 		placement = []string{"001", "002", "002"}[sc.N-1]
@@ -377,7 +461,13 @@ func runScenario(r *lib.Run, sc scenario, stubs []*lib.M13VolumeStub) {
 	for round := 1; round <= sc.Rounds; round++ {
 		atomic.StoreInt32(&w.round, int32(round))
 		lap("register")
-		t.Vacuum(grpc.WithInsecure(), threshold, 0)
+		if sc.Overlap != "" {
+			if !w.runOverlap(t, rpl) {
+				return // inconclusive (recorded): nothing is judged
+			}
+		} else {
+			t.Vacuum(grpc.WithInsecure(), threshold, 0)
+		}
 		lap("vacuum")
 		if sc.MidWrites {
 			// no commit/cleanup was issued in this round: the writes arrive after it
@@ -399,6 +489,66 @@ func runScenario(r *lib.Run, sc scenario, stubs []*lib.M13VolumeStub) {
 	r.Nontrivial("shape:" + shape)
 	r.Count("scenarios", 1)
 	r.Nontrivial(sc.key())
+}
+
+// runOverlap: the first Vacuum call is held inside sc.Overlap (every replica has acted, the
+// replies wait); sc.Extra further Vacuum calls are made one after the other, each awaited;
+// then the held round is let go and awaited. Waiting is bounded only to end a stuck run as
+// inconclusive (false); no verdict depends on time.
+func (w *world) runOverlap(t *topology.Topology, rpl *super_block.ReplicaPlacement) bool {
+	r, sc, g := w.r, w.sc, w.og
+	const patience = 5 * time.Minute // above the master's own 3-minute compact timer
+	call := func() chan struct{} {
+		done := make(chan struct{})
+		go func() {
+			defer close(done)
+			t.Vacuum(grpc.WithInsecure(), threshold, 0)
+		}()
+		return done
+	}
+	stuck := func(what string) bool {
+		r.Inconclusive("overlap scenario " + sc.key() + ": " + what)
+		close(g.open)
+		return false
+	}
+	first := call()
+	need := sc.N
+	if sc.Overlap == "commit" {
+		need = 1
+	}
+	for i := 0; i < need; i++ {
+		select {
+		case <-g.arrived:
+		case <-first:
+			return stuck("the first round ended without reaching the phase it was to be held in")
+		case <-time.After(patience):
+			return stuck("the first round did not reach the phase it was to be held in")
+		}
+	}
+	r.Count("overlap.rounds_held_in."+sc.Overlap, 1)
+	for i := 0; i < sc.Extra; i++ {
+		before := w.rpcCount()
+		select {
+		case <-call():
+		case <-time.After(patience):
+			return stuck(fmt.Sprintf("overlapping Vacuum call %d did not return", i+2))
+		}
+		r.Count("overlap.vacuum_calls_during_held_round", 1)
+		// observed, not judged (the statement speaks about RPCs per replica and the state after the round)
+		r.Count("overlap.rpcs_issued_by_overlapping_calls(not judged)", int64(w.rpcCount()-before))
+		if sc.Overlap == "compact" && has(writables(t, rpl), vidMain) {
+			r.Count("overlap.writable_while_held_in_compact(not judged)", 1)
+		}
+	}
+	close(g.open)
+	select {
+	case <-first:
+	case <-time.After(patience):
+		r.Inconclusive("overlap scenario " + sc.key() + ": the held round did not finish after it was let go")
+		return false
+	}
+	r.Count("overlap.scenarios", 1)
+	return true
 }
 
 // judge applies the three oracles after a round.
@@ -464,6 +614,11 @@ func (w *world) judge(t, ctl *topology.Topology, rpl *super_block.ReplicaPlaceme
 		phase = "commit"
 	case nCompact > 0:
 		phase = "compact"
+	}
+	if sc.Overlap != "" {
+		// all scripted outcomes are ok here: a round that does not complete is not one of the
+		// listed failed-compact/failed-commit findings
+		phase = "overlap:" + phase
 	}
 	r.Count("round_ended_in."+phase, 1)
 
@@ -649,7 +804,7 @@ func isFailure(reps []repScript) bool {
 
 func main() {
 	r := lib.Start("C14", "fault_enumeration")
-	r.SetRule("one case = one vacuum round (or two) of the real Topology.Vacuum over 1-3 replicas, each replica a real storage.Store behind a harness gRPC VolumeServer endpoint with a per-phase outcome script: check in {ok, error, garbage below threshold, hang}, compact in {ok, error before acting, error after acting, hang}, commit in {ok, error before acting, error after acting}; all reachable combinations are enumerated; with and without replicated client writes/deletes landing between compact and commit; variants: volume reported oversized, layout under-replicated. distinct = distinct (replica count, script tuple, variant, rounds, mid-writes) and distinct per-replica RPC log shapes; non-trivial = every executed scenario (each reaches at least the check RPCs)")
+	r.SetRule("one case = one vacuum round (or two) of the real Topology.Vacuum over 1-3 replicas, each replica a real storage.Store behind a harness gRPC VolumeServer endpoint with a per-phase outcome script: check in {ok, error, garbage below threshold, hang}, compact in {ok, error before acting, error after acting, hang}, commit in {ok, error before acting, error after acting}; all reachable combinations are enumerated; with and without replicated client writes/deletes landing between compact and commit; variants: volume reported oversized, layout under-replicated; overlap scenarios: the round is held inside its check, compact or commit phase (replicas acted, replies delayed) while 1-3 further Vacuum calls arrive one after the other, then let go. distinct = distinct (replica count, script tuple, variant, rounds, mid-writes, held phase + number of overlapping calls) and distinct per-replica RPC log shapes; non-trivial = every executed scenario (each reaches at least the check RPCs)")
 	r.Assume("the volume servers are harness gRPC endpoints that call the real Store vacuum functions (CheckCompactVolume, CompactVolume, CommitCompactVolume, CommitCleanupVolume) exactly as weed/server/volume_grpc_vacuum.go does")
 	r.Assume("replicas are registered with Topology.SyncDataNodeRegistration (what SendHeartbeat calls); the control topology receives the same registrations and no vacuum")
 	r.Assume("'compact succeeded' means the replica answered this round's compact RPC with success (what the master can know)")
@@ -677,6 +832,10 @@ func main() {
 		if c("rpc.commit") == 0 || c("rpc.cleanup") == 0 || c("rpc.compact") == 0 {
 			r.Inconclusive("a vacuum phase was never reached (no compact, commit or cleanup RPC observed)")
 		}
+		if c("overlap.scenarios") == 0 || c("overlap.commit_rpcs_checked_for_compaction_result") == 0 {
+			r.Inconclusive("no overlap scenario (Vacuum calls arriving during a held round) ran to its end")
+		}
+		r.Note("overlap_scenarios_completed", c("overlap.scenarios"))
 		r.Note("distinct_outcome_combinations_executed", c("scenarios"))
 		r.Note("non_hang_outcome_combinations", "exhaustively enumerated for 1-3 replicas (reachable combinations only)")
 		races := lib.DedupRaces(lib.ParseRaceLogs(lib.RaceLogPath()))
@@ -773,6 +932,14 @@ func main() {
 			scenario{N: 1, Reps: []repScript{{"ok", "err", "-"}}, MidWrites: false, Rounds: 1, Variant: v},
 			scenario{N: 2, Reps: []repScript{{"ok", "ok", "ok"}, {"ok", "ok", "err"}}, MidWrites: true, Rounds: 1, Variant: v},
 			scenario{N: 2, Reps: []repScript{{"ok", "ok", "-"}, {"ok", "err-after", "-"}}, MidWrites: true, Rounds: 2, Variant: v})
+	}
+	// overlapping triggers: a round held in each phase, 1-3 further Vacuum calls meanwhile
+	for n := 1; n <= 2; n++ {
+		for _, ph := range []string{"check", "compact", "commit"} {
+			for extra := 1; extra <= 3; extra++ {
+				list = append(list, scenario{N: n, Reps: map[int][]repScript{1: ok1, 2: ok2}[n], Rounds: 1, Overlap: ph, Extra: extra})
+			}
+		}
 	}
 	r.Note("enumerated_scenarios", len(list))
 	// four lanes, each with its own three endpoints
